@@ -338,4 +338,41 @@ theorem C01_roundtrip_nested2_of_described (gs : List Comp) (hd : ∀ g ∈ gs, 
   rw [MComps.cs_ofComps] at h
   exact h hneed hn hlast (MComps.midNotLast_ofComps gs) pdu hend henc
 
+/-! STATIC-FIELD items that END with a terminated MIN-MAX parameter (every item of a static field is encoded with
+    `is_end_of_pdu` cleared, also the last one of a field that is the last parameter of the request):
+    request [sid; recs : STATIC-FIELD, 2 items of { id; nm : MIN-MAX A_BYTEFIELD 1..4 ZERO }, ITEM-BYTE-SIZE 5]
+    → 22 | 01 AA BB 00 + 1 padding byte | 02 CC 00 + 2 padding bytes -/
+def ex4Nm (raw : Bytes) : MMLeaf :=
+  { name := "nm", bytePos := none, bt := .bytefield, enc := none, hl := true, minLen := 1, maxLen := some 4, term := .zero,
+    v := .bytes raw, raw := raw }
+def ex4Item (id : Int) (raw : Bytes) : List MComp := [mc (u8 "id" id), { c := Comp.ofMinMaxMid (ex4Nm raw), mid := true }]
+def ex4 : List MComp :=
+  [mc (Comp.ofObjConst ⟨"sid", none, none, none, true, 8, .uint32⟩ (.int 0x22) false),
+   mc (Comp.ofValue "recs" none (DComp.staticField 5 (.struct none (Comps.toParams (MComps.cs (ex4Item 0 []))))
+     (itemsO none [ex4Item 1 [0xAA, 0xBB], ex4Item 2 [0xCC]])))]
+example : (encodeMessage none (Comps.toParams (MComps.cs ex4)) (.dict (Comps.values (MComps.cs ex4))) none true).toOption
+    = some ([0x22, 0x01, 0xAA, 0xBB, 0x00, 0x00, 0x02, 0xCC, 0x00, 0x00, 0x00], 0) := by decide +kernel
+theorem ex4Nm_ok1 : (ex4Nm [0xAA, 0xBB]).okMid :=
+  ⟨⟨⟨allBytes_of_all _ (by decide), Or.inl ⟨rfl, rfl, Or.inl rfl⟩⟩, by decide, fun mx h => by cases h; decide, fun _ => by decide⟩,
+    by decide, by decide, by decide, fun mx h => by cases h; decide⟩
+theorem ex4Nm_ok2 : (ex4Nm [0xCC]).okMid :=
+  ⟨⟨⟨allBytes_of_all _ (by decide), Or.inl ⟨rfl, rfl, Or.inl rfl⟩⟩, by decide, fun mx h => by cases h; decide, fun _ => by decide⟩,
+    by decide, by decide, by decide, fun mx h => by cases h; decide⟩
+theorem ex4_described : ∀ m ∈ ex4, DescribedTop none m.c m.mid := by
+  intro m hm
+  simp only [ex4, List.mem_cons, List.mem_nil_iff, or_false] at hm
+  rcases hm with rfl | rfl
+  · exact DescribedTop.nested _ _ (Described2.const _ _ _ (by simp [Obj.ok, Obj.encOk, Obj.sizeOk]) (by simp [Obj.inRange]))
+  · refine DescribedTop.nested _ _ (Described2.staticField "recs" none 5 none (Comps.toParams (MComps.cs (ex4Item 0 [])))
+      [ex4Item 1 [0xAA, 0xBB], ex4Item 2 [0xCC]] (mem2 _ _ ?_ ?_) (mem2 _ _ ?_ ?_))
+    · exact mem2 _ _ (described2_byte "id" none 1 (by decide) (by decide)) (Described2.minmaxMid _ ex4Nm_ok1)
+    · exact mem2 _ _ (described2_byte "id" none 2 (by decide) (by decide)) (Described2.minmaxMid _ ex4Nm_ok2)
+    · exact ⟨⟨rfl, namesOk2 _ _ (by decide), rfl, fun _ h => nomatch h⟩, by decide⟩
+    · exact ⟨⟨rfl, namesOk2 _ _ (by decide), rfl, fun _ h => nomatch h⟩, by decide⟩
+example : decodeMessage none (Comps.toParams (MComps.cs ex4)) [0x22, 0x01, 0xAA, 0xBB, 0x00, 0x00, 0x02, 0xCC, 0x00, 0x00, 0x00] true
+    = .ok (.dict (Comps.pair (MComps.cs ex4)).val, 11) :=
+  C01_roundtrip_nested2_whole ex4 none ex4_described (by decide)
+    (by simp [Comps.namesOk, ex4, MComps.cs, mc, Comp.name, Param.name, Comp.ofObjConst, Obj.toConstParam, Comp.ofValue])
+    ⟨rfl, trivial⟩ rfl _ (by decide +kernel) (Except.eq_ok_of_toOption (by decide +kernel))
+
 end OdxVerif.Codec
